@@ -403,7 +403,7 @@ pub fn encode_zoom_section(
         lemma_fmt_len(items_in_section@);
     }
     let (out_bytes, uncompressed_buf_size) = if compress {
-        let compressed_data = deflate_vec(&bytes);
+        let compressed_data = deflate_vec(&bytes); let actual_sz = compressed_data.len(); let max_sz = actual_sz;
         (compressed_data, bytes.len())
     } else {
         (bytes.bytes, 0)
